@@ -17,8 +17,12 @@ flags only skip work), propagation changes annotations only (`C06_eval_unchanged
 substitution whose assignment `ρ` satisfies keeps the environment in agreement, including
 `add_variable`'s "two different values ⇒ non-constant" rule (`C06_stmt_sound`).
 
-Path level (`Lemmas/PathValues.lean`): for every SSA CFG whose substitutions assign pairwise different
-variables (`SingleDef`, evaluated on every real dump), every prime, every budget `k` of passes and every
+Path level (`Lemmas/PathValues.lean`): for every SSA CFG in which no two claim-carrying substitutions assign the
+same variable (`SingleDef`, evaluated on every real dump: clause (a) of C14 for versioned locals; for signals and
+components it holds by construction, `C06_unversioned_marked`, since the pre-pass of `Cfg::propagate_values`
+marks every unversioned variable assigned by two statements as not constant — before the repair of the defect
+found in the third round a signal assigned a constant on one path and something else on another was claimed
+constant), every prime, every budget `k` of passes and every
 state that any execution can reach — any order and number of executions of the CFG's substitutions, a
 `phi` taking any one of its arguments (hypothesis `PhiComplete`, the identity of the one known finding),
 calls / arrays / array reads evaluating to anything, unassigned variables (parameters, input signals)
@@ -179,16 +183,16 @@ example : (valExpr ⟨2188824287183927522224640574525727508854836440041603434369
 
 /-- **path level**: after any number `k` of passes over an unannotated SSA CFG with single definitions,
     every claim on every statement is right in every reachable state of every execution -/
-theorem C06_path_sound (p : Int) (bs : List Block) (hsd : SingleDef (stmtsOf bs))
+theorem C06_path_sound (p : Int) (bs : List Block) (hsd : SingleDef (MuOf bs) (stmtsOf bs))
     (hclean : ∀ s, s ∈ stmtsOf bs → NoValS s) (k : Nat) :
-    ∀ σ, Reach p (stmtsOf bs) σ → ∀ s, s ∈ stmtsOf (valLoop k ⟨p, [], []⟩ bs).1 → SoundS σ p s :=
-  value_path_sound p bs hsd (fun σ _ s hs => noValS_sound σ p s (hclean s hs)) k
+    ∀ σ, Reach p (stmtsOf bs) σ → ∀ s, s ∈ stmtsOf (valLoop k (valInit p bs) bs).1 → SoundS (MuOf bs) σ p s :=
+  value_path_sound p bs hsd (fun σ _ s hs => noValS_sound (MuOf bs) σ p s (hclean s hs)) k
 
 /-- a `constant branch condition`: if the condition of a branch carries the claim `x`, it evaluates to
     `x` (or is undefined) in every reachable state, whatever the opaque sub-expressions yield -/
-theorem C06_branch_condition (p : Int) (bs : List Block) (hsd : SingleDef (stmtsOf bs))
+theorem C06_branch_condition (p : Int) (bs : List Block) (hsd : SingleDef (MuOf bs) (stmtsOf bs))
     (hclean : ∀ s, s ∈ stmtsOf bs → NoValS s) (k : Nat) (c : Expr)
-    (hc : Stmt.ite c ∈ stmtsOf (valLoop k ⟨p, [], []⟩ bs).1) (x : Val) (hx : c.ann.val = some x) :
+    (hc : Stmt.ite c ∈ stmtsOf (valLoop k (valInit p bs) bs).1) (x : Val) (hx : c.ann.val = some x) :
     ∀ σ, Reach p (stmtsOf bs) σ → ∀ ω y, evalE σ ω p c = some y → y = x := by
   intro σ hr ω y hy
   have := C06_path_sound p bs hsd hclean k σ hr _ hc
@@ -196,7 +200,18 @@ theorem C06_branch_condition (p : Int) (bs : List Block) (hsd : SingleDef (stmts
   exact sound_top σ ω p c (this ω) x hx y hy
 
 /-- the decidable form of the hypothesis, evaluated by `csmodel pathhyps` on every real dump -/
-theorem C06_singleDef_decidable (P : List Stmt) (h : singleDefB P = true) : SingleDef P := singleDefB_sound P h
+theorem C06_singleDef_decidable (bs : List Block) (h : singleDefB (stmtsOf bs) = true) : SingleDef (MuOf bs) (stmtsOf bs) :=
+  singleDefB_sound bs h
+
+/-- for signals and components the hypothesis holds by construction: two different substitutions to the same
+    unversioned variable, neither an element-wise update, make the pre-pass mark it as not constant -/
+theorem C06_unversioned_marked (bs : List Block) (s₁ s₂ : Stmt) (h₁ : s₁ ∈ stmtsOf bs) (h₂ : s₂ ∈ stmtsOf bs) (v : VName)
+    (k₁ : nonUpdKey s₁ = some v) (k₂ : nonUpdKey s₂ = some v) : s₁ = s₂ ∨ MuOf bs v :=
+  singleDef_unversioned (stmtsOf bs) s₁ s₂ h₁ h₂ v k₁ k₂
+
+/-- a marked variable never gets a value: no read of it is ever annotated from the environment -/
+theorem C06_marked_never_recorded (env : ValEnv) (v : VName) (x : Val) (h : env.nonConstant.contains v = true) :
+    env.add v x = env := add_marked env v x h
 
 /-! non-vacuity of the path theorem: `x = 3; y = x + 2; if (y == 5)` — the hypotheses hold, the branch
     condition gets the claim `true` after the passes, and the state `x ↦ 3, y ↦ 5` is reachable. -/
@@ -213,7 +228,7 @@ example : ∀ s, s ∈ stmtsOf demo → NoValS s := by
   intro s hs
   simp only [stmtsOf, demo, List.flatMap_cons, List.flatMap_nil, List.append_nil, List.mem_cons, List.not_mem_nil, or_false] at hs
   rcases hs with h | h | h <;> subst h <;> simp [NoValS, NoValE]
-example : ((stmtsOf (valLoop 20 ⟨101, [], []⟩ demo).1).map (fun s => match s with | .ite c => c.ann.val | _ => none)) =
+example : ((stmtsOf (valLoop 20 (valInit 101 demo) demo).1).map (fun s => match s with | .ite c => c.ann.val | _ => none)) =
     [none, none, some (.bool true)] := by decide
 example : ∃ σ, Reach 101 (stmtsOf demo) σ ∧ σ px = some (.fe 3) ∧ σ py = some (.fe 5) := by
   let σ₀ : State := fun _ => none
@@ -225,6 +240,23 @@ example : ∃ σ, Reach 101 (stmtsOf demo) σ ∧ σ px = some (.fe 3) ∧ σ py
   refine ⟨_, h2, ?_, ?_⟩
   · simp [State.set, px, py, evalE]
   · simp only [State.set_same]; decide
+/-! the defect repaired in the third round: `if (n == 1) { s <== 1; } else { s <== in; } if (s == 1)` — `s` is marked,
+    the hypotheses hold, and the condition gets no claim -/
+private def ps : VName := ⟨"s", none, none⟩
+private def pn : VName := ⟨"n", none, none⟩
+private def pin : VName := ⟨"in", none, none⟩
+private def demo2 : List Block := [
+  { stmts := [.ite (.infix {} "eq" (.var {} pn) (.num {} 1))] },
+  { stmts := [.sub {} ps (some .signal) "<==" (.num {} 1)] },
+  { stmts := [.sub {} ps (some .signal) "<==" (.var {} pin)] },
+  { stmts := [.ite (.infix {} "eq" (.var {} ps) (.num {} 1))] }]
+example : multiOf (stmtsOf demo2) = [ps] := by decide
+example : singleDefB (stmtsOf demo2) = true := by decide
+example : ((stmtsOf (valLoop 20 (valInit 101 demo2) demo2).1).map (fun s => match s with | .ite c => c.ann.val | _ => none)) =
+    [none, none, none, none] := by decide
+/-- ... while without the pre-pass (the code before the repair) the condition is claimed to be always true -/
+example : ((stmtsOf (valLoop 20 ⟨101, [], []⟩ demo2).1).map (fun s => match s with | .ite c => c.ann.val | _ => none)) =
+    [none, none, none, some (.bool true)] := by decide
 end NonVacuity
 
 end Circomspect.C06
